@@ -22,3 +22,21 @@ package coordinator
 //@     requires (!sameSg || !wh.sameMst) ==> refreshed
 //@   call (*Row).UnmarshalShardKeyByDimOrTag
 //@     requires (!sameSg || !wh.sameMst) ==> refreshed
+
+// The shard group cached from the previous row may be reused only if it CONTAINS the row's time (half-open span:
+// a point exactly on a group's end belongs to the next group) and has the requested engine type.
+//@ func createShardGroup
+//@   requires preSg != nil
+//@   ensures [cached_group_contains_ts] result1 ==> result0 != nil && result0.StartTime <= ts && ts < result0.EndTime && result0.EngineType == engineType
+//@   ensures [no_group_is_an_error] result2 == nil ==> result0 != nil
+
+// "Same measurement as the previous row" is decided BEFORE the helper's record of the previous measurement is
+// overwritten by the lookup of the current one (otherwise it is always true and the shard-key definition cached for
+// the previous measurement is applied to this row).
+//@ func (*PointsWriter).routeAndMapOriginRows
+//@   ghost cmp bool = false
+//@   call (*writeHelper).sameMeasurement
+//@     set cmp = true
+//@   call (*writeHelper).createMeasurement
+//@     requires [compare_before_overwrite] cmp
+//@     set cmp = false
